@@ -541,10 +541,12 @@ class DiHypergraph:
         >>> DH.add_edge(([3, 4], set()), idx='myedge')
         """
         if isinstance(members, (tuple, list)):
-            tail = members[0]
-            head = members[1]
+            tail = list(members[0])
+            head = list(members[1])
         else:
             raise XGIError("Directed edge must be a list or tuple!")
+        if None in tail or None in head:
+            raise XGIError("None cannot be a node or edge")
 
         uid = next(self._edge_uid) if idx is None else idx
 
@@ -688,9 +690,12 @@ class DiHypergraph:
                     raise XGIError("Directed edge must be a list or tuple!")
 
                 try:
-                    self._edge[idx] = {"in": set(tail), "out": set(head)}
+                    edge = {"in": set(tail), "out": set(head)}
                 except TypeError as e:
                     raise XGIError("Invalid ebunch format") from e
+                if None in edge["in"] or None in edge["out"]:
+                    raise XGIError("None cannot be a node or edge")
+                self._edge[idx] = edge
 
                 for n in tail:
                     if n not in self._node:
@@ -752,9 +757,12 @@ class DiHypergraph:
                 try:
                     tail = members[0]
                     head = members[1]
-                    self._edge[idx] = {"in": set(tail), "out": set(head)}
+                    edge = {"in": set(tail), "out": set(head)}
                 except TypeError as e:
                     raise XGIError("Invalid ebunch format") from e
+                if None in edge["in"] or None in edge["out"]:
+                    raise XGIError("None cannot be a node or edge")
+                self._edge[idx] = edge
 
                 for node in tail:
                     if node not in self._node:
